@@ -27,6 +27,7 @@ type Obligation struct {
 	Status  string // discharged failed-model failed-unknown
 	Solver  string
 	Ms      int64
+	Rlimit  int64 // z3 resource units spent by the deciding solver (deterministic effort measure)
 	Model   string
 	Output  string
 	IsCover bool // cover query: must be satisfiable
